@@ -22,6 +22,11 @@ import (
 // receives exactly the payload.
 
 func c01FanoutSetup(k connCfg, size int) func(c *fw.Ctx, name string) explore.Setup {
+	return c01FanoutSetupP(k, size, "C01")
+}
+
+// c01FanoutSetupP: the same history reported under prop; under C18 the writes go through the net.Conn adapter.
+func c01FanoutSetupP(k connCfg, size int, prop string) func(c *fw.Ctx, name string) explore.Setup {
 	return func(c *fw.Ctx, name string) explore.Setup {
 		return func(w *vs.World) func(bool) {
 			pipes := []*vpipe.Pipe{vpipe.New(), vpipe.New()}
@@ -47,6 +52,10 @@ func c01FanoutSetup(k connCfg, size int) func(c *fw.Ctx, name string) explore.Se
 					i := i
 					conn := mkConn(pipes[i], k)
 					w.GoHarness(fmt.Sprintf("writer%d", i), true, func() {
+						if prop == "C18" {
+							_, errs[i] = websocket.NetConn(bg, conn, websocket.MessageBinary).Write(payload)
+							return
+						}
 						errs[i] = conn.Write(bg, websocket.MessageBinary, payload)
 					})
 					w.GoHarness(fmt.Sprintf("drainer%d", i), false, func() {
@@ -65,37 +74,37 @@ func c01FanoutSetup(k connCfg, size int) func(c *fw.Ctx, name string) explore.Se
 				}
 				role := k.String()
 				if w.Panic != "" {
-					violate(c, w, name, "C01/panic/fanout/"+role, w.Panic)
+					violate(c, w, name, prop+"/panic/fanout/"+role, w.Panic)
 					return
 				}
 				if w.Deadlock || w.HorizonHit {
-					violate(c, w, name, "C01/no-termination/fanout/"+role, fmt.Sprintf("tasks %v never return", stuckTasks(w)))
+					violate(c, w, name, prop+"/no-termination/fanout/"+role, fmt.Sprintf("tasks %v never return", stuckTasks(w)))
 					return
 				}
 				if seenModified != "" {
-					violate(c, w, name, "C01/caller-buffer-modified/fanout/"+role, seenModified)
+					violate(c, w, name, prop+"/caller-buffer-modified/fanout/"+role, seenModified)
 					return
 				}
 				for i, p := range pipes {
 					if errs[i] != nil {
-						violate(c, w, name, "C01/write-error/fanout/"+role, fmt.Sprintf("connection %d: Write failed on a healthy transport: %v", i, errs[i]))
+						violate(c, w, name, prop+"/write-error/fanout/"+role, fmt.Sprintf("connection %d: Write failed on a healthy transport: %v", i, errs[i]))
 						return
 					}
 					res := frame.Validate(p.Out, frame.StreamRules{SenderIsClient: k.Client, Deflate: k.Flate})
 					if len(res.Violations) > 0 || len(res.Messages) != 1 {
-						violate(c, w, name, "C01/payload-differs/fanout/"+role, fmt.Sprintf("connection %d: wire does not hold exactly one well-formed message (%d messages, violations %v)", i, len(res.Messages), res.Violations))
+						violate(c, w, name, prop+"/payload-differs/fanout/"+role, fmt.Sprintf("connection %d: wire does not hold exactly one well-formed message (%d messages, violations %v)", i, len(res.Messages), res.Violations))
 						return
 					}
 					pl := res.Messages[0].Payload
 					if res.Messages[0].Compressed {
 						var err error
 						if pl, err = (&deflate.Inflater{}).Message(pl); err != nil {
-							violate(c, w, name, "C01/payload-differs/fanout/"+role, fmt.Sprintf("connection %d: message does not inflate: %v", i, err))
+							violate(c, w, name, prop+"/payload-differs/fanout/"+role, fmt.Sprintf("connection %d: message does not inflate: %v", i, err))
 							return
 						}
 					}
 					if !bytes.Equal(pl, private) {
-						violate(c, w, name, "C01/payload-differs/fanout/"+role, fmt.Sprintf("connection %d: the peer received %d bytes that differ from the payload at offset %d (the same slice was being written on the other connection)", i, len(pl), firstDiff(pl, private)))
+						violate(c, w, name, prop+"/payload-differs/fanout/"+role, fmt.Sprintf("connection %d: the peer received %d bytes that differ from the payload at offset %d (the same slice was being written on the other connection)", i, len(pl), firstDiff(pl, private)))
 						return
 					}
 				}
@@ -137,7 +146,28 @@ func c01RaceScenarios(tier string) []scenario {
 	return out
 }
 
+func fanoutScenariosFor(prop string) func(tier string) []scenario {
+	return func(tier string) []scenario {
+		var scs []scenario
+		p := 1
+		if tier == "thorough" {
+			p = 2
+		}
+		for _, k := range []connCfg{{Client: true}, {Client: false}} {
+			scs = append(scs, scenario{Name: fmt.Sprintf("fanout/9000/%s", k.String()), Cfg: explore.Config{P: p, Horizon: 60e9}, Setup: c01FanoutSetupP(k, 9000, prop)})
+		}
+		return scs
+	}
+}
+
 func init() {
+	for _, prop := range []string{"C05", "C18"} {
+		scs := fanoutScenariosFor(prop)
+		fw.Register(fw.Part{Prop: prop, Name: "s.fanout",
+			Units:  func(tier string) []fw.Unit { return scenarioUnits(scs(tier)) },
+			Replay: replayFn(scs),
+		})
+	}
 	fw.Register(fw.Part{Prop: "C01R", Name: "s.race",
 		Units:  func(tier string) []fw.Unit { return scenarioUnits(c01RaceScenarios(tier)) },
 		Replay: replayFn(c01RaceScenarios),
